@@ -215,8 +215,8 @@ def check(ctx):
 
     fe_all = pipe_exec.FRONTENDS
     forms = ["iso", "datetime", "timestamp"]
-    max_orders = {"C05": 1, "C06": ctx.pick(6, 24), "C18": 2}[prop]
-    n_model = ctx.pick({"C05": 260, "C06": 300, "C18": 300}[prop], {"C05": 3000, "C06": 3000, "C18": 3000}[prop])
+    max_orders = {"C05": 1, "C06": ctx.pick(6, 12), "C18": 2}[prop]
+    n_model = ctx.pick({"C05": 260, "C06": 300, "C18": 300}[prop], {"C05": 3000, "C06": 2500, "C18": 1500}[prop])
     cases = []
     for i in idx:
         if len(cases) >= n_model:
@@ -257,6 +257,10 @@ def check(ctx):
             if "qcconfig_bare" in fes and "qcconfig_bare" not in pick:
                 pick.append("qcconfig_bare")
             fes = pick
+        elif prop != "C05":
+            # thorough: C05 visits every front end for every case; C06 / C18 rotate through them (4 resp. 6 per case)
+            k = 4 if prop == "C06" else 6
+            fes = [fes[(n + j) % len(fes)] for j in range(min(k, len(fes)))]
         for fe in fes:
             form = forms[(n + len(fe)) % 3]
             add_run(tb, cfg, fe, "base", form, max_orders)
